@@ -109,7 +109,7 @@ def kind_cpp(k):
 
 COMMON = ["-I" + os.path.join(REPO, "src"), "-I" + os.path.join(ROOT, "harness", "include"), "-DCNTGS_VERIF",
           "-Wno-unused-parameter"]
-SAN = ["-fno-omit-frame-pointer", "-fsanitize=address,undefined", "-fno-sanitize=alignment,nonnull-attribute",
+SAN = ["-fno-omit-frame-pointer", "-fsanitize=address,undefined", "-fno-sanitize=alignment,nonnull-attribute,returns-nonnull-attribute",
        "-fno-sanitize-recover=all"]
 FLAVOURS = {
     "plain": ("g++", ["-O1", "-g1"]),
